@@ -694,7 +694,7 @@ fn dyn_wrap_go_name(trait_name: &str, for_ty: &tast::Ty, method_name: &str) -> S
     ))
 }
 
-fn collect_dyn_requirements(file: &anf::File) -> DynRequirements {
+fn collect_dyn_requirements(goenv: &GlobalGoEnv, file: &anf::File) -> DynRequirements {
     fn collect_ty(req: &mut DynRequirements, ty: &tast::Ty) {
         match ty {
             tast::Ty::TDyn { trait_name } => {
@@ -855,6 +855,24 @@ fn collect_dyn_requirements(file: &anf::File) -> DynRequirements {
         }
         collect_ty(&mut req, &f.ret_ty);
         collect_aexpr(&mut req, &f.body);
+    }
+    // Type definitions are emitted whether or not a function uses them, so a `dyn Trait`
+    // their fields mention needs its declaration too.
+    for (_, def) in goenv.structs() {
+        if struct_def_is_emitted(def) {
+            for (_, ty) in &def.fields {
+                collect_ty(&mut req, ty);
+            }
+        }
+    }
+    for (_, def) in goenv.enums() {
+        if enum_def_is_emitted(def) {
+            for (_, fields) in &def.variants {
+                for ty in fields {
+                    collect_ty(&mut req, ty);
+                }
+            }
+        }
     }
     req
 }
@@ -2534,7 +2552,7 @@ pub fn go_file(
     }
 
     let file = anf::anf_renamer::rename(file);
-    let dyn_req = collect_dyn_requirements(&file);
+    let dyn_req = collect_dyn_requirements(&goenv, &file);
 
     let mut toplevels = gen_type_definition(&goenv);
     toplevels.extend(gen_dyn_type_definitions(&goenv, &dyn_req));
